@@ -233,6 +233,7 @@ class Model:
         # call-time invariant failures (C17): (seq, what)
         self.c17_failures: list = []
         self.last_prior_hash: dict = {}
+        self.prior_rows: set = set()  # bytes of every row the prior was asked about
         self.return_numpy = False
         # listeners: fn(kind, samples, values_np)
         self.listeners: list = []
@@ -282,6 +283,7 @@ class SimPrior:
         m.n_prior_calls += 1
         m.n_prior_points += len(x)
         m.last_prior_hash[h] = m.trace.log("prior", k=k, n=len(x), x=h, phase=m.trace.phase)
+        m.prior_rows.update(row.tobytes() for row in x)
         for fn in m.listeners:
             fn("prior", samples, val)
         return m._out(samples, val)
@@ -330,7 +332,9 @@ class SimLikelihood:
                 ):
                     ok, why = False, "attached log_prior is not the prior of these points"
             if ok and h not in m.last_prior_hash:
-                ok, why = False, "no prior call on these points preceded the likelihood call"
+                missing = sum(1 for row in x if row.tobytes() not in m.prior_rows)
+                if missing:
+                    ok, why = False, f"{missing} of {len(x)} points were never passed to the prior before this likelihood call"
         if map_fn is not map:
             val = np.fromiter(
                 map_fn(self._point, [row for row in x]), dtype=np.float64, count=len(x)
